@@ -219,13 +219,14 @@ class Gen:
             n = cfg["n"]
             ins[1:] = [r.randrange(0, 2 ** max(1, n - 1)) for _ in range(nin - 1)]
             if r.random() < 0.5: ins[3] = r.randrange(1, max(2, 2 ** max(1, n // 2)))
+        self.pybool = r.random() < 0.3          # some runs pass True / False where the program says 1 / 0
         for gi in pf.get("guard_inputs", [0]):
             if gi != 0: ins[gi] = r.choice([0, 1, 1])
         self.regs = []          # (index, kind)
         self.ints = {}          # register -> value of int constants
         self.nreg = 0
         prog = self.block(cfg, r.choice(pf.get("lengths", [3, 5, 8, 12])), depth=0)
-        return dict(cfg=cfg, prog=prog, ins=ins)
+        return dict(cfg=cfg, prog=prog, ins=ins, pybool=int(self.pybool))
 
     def new(self, kind):
         i = self.nreg
@@ -304,7 +305,7 @@ class Gen:
                     if kv >= cfg["n"]:
                         if ka == "any": continue       # would be the plain int 0 if the operand turns out to be a LinComb
                         rk = "int"                     # from_bits([]) is the plain int 0
-                out.append(["bin", self.new(rk), op, a, b])
+                out.append(["bin", self.new(rk), op, a, b] + (["i"] if r.random() < 0.2 else []))     # "i": written as t = a; t <op>= b
                 if rk == "int" and op == "rshift": self.ints[self.nreg - 1] = 0
             elif choice == "un":
                 a = self.pick(["lc", "bool", "fxp", "int", "any"])
